@@ -6,6 +6,7 @@
 
 #include <inttypes.h>
 #include <iostream>
+#include <mutex>
 #include "nfl/prng/crypto_stream_salsa20.h"
 #include "nfl/prng/randombytes.h"
 
@@ -17,19 +18,26 @@ static size_t constexpr crypto_stream_salsa20_NONCEBYTES = 8;
 static int init = 0;
 static unsigned char key[crypto_stream_salsa20_KEYBYTES];
 static unsigned char nonce[crypto_stream_salsa20_NONCEBYTES] = {0};
+static std::mutex state_mutex;
 
 void fastrandombytes(unsigned char *r, unsigned long long rlen) {
   unsigned long long n = 0;
   int i;
-  if (!init) {
-    randombytes(key, crypto_stream_salsa20_KEYBYTES);
-    init = 1;
-  }
-  nfl_crypto_stream_salsa20_amd64_xmm6(r, rlen, nonce, key);
+  unsigned char my_nonce[crypto_stream_salsa20_NONCEBYTES];
+  {
+    // The key is set once and every request reserves its own nonce
+    std::lock_guard<std::mutex> lock(state_mutex);
+    if (!init) {
+      randombytes(key, crypto_stream_salsa20_KEYBYTES);
+      init = 1;
+    }
+    for (i = 0; i < crypto_stream_salsa20_NONCEBYTES; i++) my_nonce[i] = nonce[i];
 
-  // Increase 64-bit counter (nonce)
-  for (i = 0; i < crypto_stream_salsa20_NONCEBYTES; i++) n ^= ((unsigned long long)nonce[i]) << 8 * i;
-  n++;
-  for (i = 0; i < crypto_stream_salsa20_NONCEBYTES; i++) nonce[i] = (n >> 8 * i) & 0xff;
+    // Increase 64-bit counter (nonce)
+    for (i = 0; i < crypto_stream_salsa20_NONCEBYTES; i++) n ^= ((unsigned long long)nonce[i]) << 8 * i;
+    n++;
+    for (i = 0; i < crypto_stream_salsa20_NONCEBYTES; i++) nonce[i] = (n >> 8 * i) & 0xff;
+  }
+  nfl_crypto_stream_salsa20_amd64_xmm6(r, rlen, my_nonce, key);
 }
 }
